@@ -296,6 +296,10 @@ class XferPeer:
     async def request_file(self, filename: str, via: str = 'queue'):
         """Ask the client for ``filename``: PeerTransferQueue (or a direct PeerTransferRequest)."""
         dl = self.downloads.get(filename) or self.want(filename)
+        if dl.complete_at is not None:
+            # asking again for a file we already have in full is a new download from byte 0
+            dl.received = bytearray()
+            dl.complete_at = None
         link = await self.p_link()
         if link is None or filename in self.muted:
             return
